@@ -32,6 +32,30 @@ CLAIMS = {
  "C08": ("property-based testing: complete enumeration of P8/P16 sources and of every 9/17-bit threshold mapped into P32 (all 2^32 P32 sources in thorough) + proptest patterns; exact oracle; widening round-trip identity",
          "All six directed conversions through three spellings each compared with the posit rounding of the source value in the target format; widening exactness and the widen-narrow identity asserted.",
          "DESIGN.md section 6, C08"),
+ "C04": ("stateful property-based testing: proptest-generated call histories (vec of steps + interpreter, tie-directed histories) against an exact dyadic model checked after every step; metamorphic order-independence; complete single-product enumeration for Q8",
+         "Histories of += / -= of products and posits in every operand spelling (tuple, nested tuple, array, methods, Quire trait, linalg::quire_dot) are applied to the real quire and to an exact model in lock-step; after every step the 32/128/512-bit image, is_zero, is_nar and to_posit are compared with the model; NaR stickiness and order independence are asserted. Tie-directed histories put the deciding sticky bit at a drawn depth (any limb).",
+         "DESIGN.md section 6, C04"),
+ "C10": ("property-based testing: complete enumeration (all P8 pairs and 2^24 clamp triples, all PxE pairs for N <= 8, all P16 pairs in thorough) + proptest pairs/triples for wider types; oracle = order of independently decoded exact values",
+         "All comparison operators and methods, min/max/clamp (bit-identical selection), neg, abs, signum, copysign and the classification predicates are compared with the real-number order / sign of independently decoded values, NaR below every real; for P8E0, P16E1, P32E2 and PxE1<N>, PxE2<N> for every N in 2..=32.",
+         "DESIGN.md section 6, C10"),
+ "C11": ("property-based testing by complete enumeration: all 65536 x 10 + 256 x 2 inputs against committed golden tables (mpmath >= 200 bits, enclosure-proved rounding decisions, exact rational special cases), cross-checked in-process by an f64 enclosure",
+         "Every input of every listed function is evaluated and compared bit-for-bit with a correctly rounded golden value; the space is decided completely in both tiers.",
+         "DESIGN.md section 6, C11"),
+ "C12": ("stateful property-based testing: C04 histories with neg/clear inserted, checked against the exact model after every step and on the final state (from_bits/to_bits, neg, split, clear); complete posit->quire->posit round trip for P8/P16 (P32 in thorough)",
+         "Round trip, negation, clear, bit round trip and the two/three-posit residual split are compared with exact dyadic arithmetic on every state reached by generated histories.",
+         "DESIGN.md section 6, C12"),
+ "C15": ("property-based testing: strided complete scan of each unary function's domain (stride 256 quick / 8 thorough, offset from the seed) + proptest boundary inputs and pairs; oracle = minimum encoding distance to the posit roundings of a widened libm interval",
+         "The crate's answer for every generated/enumerated in-domain argument must lie within the stated number of encodings of the correctly rounded value (reference error can only hide, never create, a violation); NaR and out-of-domain clauses are asserted exactly. The evidence carries the full ulp-error histogram per function.",
+         "DESIGN.md section 6, C15"),
+ "C17": ("differential property-based testing between spellings (no reference model): all P8 pairs + proptest operands; lock-step quires over generated histories",
+         "Every forwarding spelling (operator traits, op-assign, From/Into, num_traits impls, Quire trait, aliases) is compared bit-for-bit (or panic-for-panic) with the inherent operation on generated inputs.",
+         "DESIGN.md section 6, C17"),
+ "C18": ("property-based testing: proptest x / coefficient arrays (incl. power-of-two arrays and [P;2],[P;3] coefficients) for all 20 polynomial forms against an exact dyadic oracle that rounds once per documented quire stage",
+         "poly1..poly18, poly3a, poly4a are compared bit-for-bit with exact fused sums rounded once per documented stage, powers individually rounded.",
+         "DESIGN.md section 6, C18"),
+ "C19": ("property-based testing with scripted RNGs: the sampler's whole index space enumerated through the RNG words (P8, P16 complete; P32 strided / complete in thorough), proptest word streams, real generators from generated seeds",
+         "Every sample is judged on its independently decoded value (real, 0 <= p < 1); the outcome space of the Standard distribution is enumerated rather than sampled.",
+         "DESIGN.md section 6, C19"),
  "C09": ("property-based testing: complete enumeration (P8, P16; P32 in thorough, strided in quick) + proptest inputs around integers and half-integers; exact dyadic oracle that also asserts representability",
          "round/floor/ceil/trunc/fract of every pattern compared with the exact integer functions; complete for P8/P16 and for all 2^32 P32 patterns in the thorough tier.",
          "DESIGN.md section 6, C09"),
